@@ -424,7 +424,7 @@ func (c *Ctx) checkEnableFormula(r *Report, ro *Roles) {
 		for mn := int64(0); mn < 3; mn++ {
 			for mx := int64(0); mx < 3; mx++ {
 				vals := map[string]int64{
-					"param:" + lp + ".code":              l,
+					"param:" + lp + ".code":            l,
 					"param:" + recv + ".MinLevel.code": mn,
 					"param:" + recv + ".MaxLevel.code": mx,
 				}
